@@ -66,8 +66,10 @@ func c14Exec(c Sx) Sx {
 		var res Sx
 		switch op.Head() {
 		case "s":
-			cache.Set(op.List[1].Str(), c14Route(op.List[2].Int()))
 			res = A("u")
+			if !cache.Set(op.List[1].Str(), c14Route(op.List[2].Int())) { // Set reports true, always
+				res = A("set-reports-false")
+			}
 		case "g":
 			rt, ok := cache.Get(op.List[1].Str())
 			if ok {
